@@ -101,6 +101,32 @@ def judge(ctx, name, events, per_op):
     return mism
 
 
+
+def xwindows(ctx):
+    """Xen build: accesses through an on-demand grant region under strace - every temporary window is mapped and unmapped
+    exactly once (the device log pairs map and unmap REQUESTS; a second munmap of the window itself is only visible here)."""
+    import m_xen
+    P = m_xen.P
+    prog = []
+    for h in range(2 if ctx.tier == "quick" else 12):
+        base, size = 2 * P, 4 * P
+        prog.append({"op": "init", "a": {"kind": "ondemand", "pages": 8, "base": base, "size": size}})
+        n = 0
+        while n < (40 if ctx.tier == "quick" else 120):
+            op, a = m_xen.rnd_op(ctx.rnd, base, size, False)
+            if op in m_xen.GUARDED:         # (the others run in forked children of the executor)
+                prog.append({"op": op, "a": a})
+                n += 1
+        prog.append({"op": "drop", "a": {}})
+    events, per_op = strace_run(ctx, "xgrant", prog, "unmap_xgrant_" + ctx.pid, pkg="vmh-xen")
+    judge(ctx, "unmap_xgrant_" + ctx.pid, events, per_op)
+    windows = sum(1 for x in per_op for c in x if c[0] == "mmap" and c[2] == 1)
+    if windows < 20:
+        raise ToolError("the on-demand accesses under strace produced almost no temporary mappings (%d)" % windows)
+    ctx.cov["on_demand_windows_under_strace"] = windows
+    return sum(len(x) for x in per_op)
+
+
 def run(ctx):
     import m_own
     # standard build: ownership histories (create / clone / drop in every order)
@@ -124,6 +150,7 @@ def run(ctx):
     if bad and not ctx.violations:
         raise ToolError("a construction that should be accepted was refused under strace: %s" % json.dumps(bad[0])[:300])
     n_sys += sum(len(x) for x in per_op)
+    n_sys += xwindows(ctx)
     ctx.cov["syscalls_attributed"] = n_sys
     ctx.cov["traces_validated_against_impl"] += nh + len(prog)
     ctx.assumptions += ["unmap-once is observed through strace (mmap / munmap of the executor's main thread, attributed to operations by "
